@@ -15,6 +15,14 @@ CLAIMED = {
    text="Deductive proof that every return path of the per-operation closure yields a non-nil result carrying its own index and no error, that the reducer places by index and keeps the other slots (frame), and via the fold rule that N operations yield N filled slots with slot i holding operation i's result, for every completion order; Parse's single/batch shape establishes Emit's precondition. Independence is proved as a frame: the closure modifies only fresh objects, JSON payload maps, the plan cache and the ghost call counter. Interleavings of the concurrent closures are not decided (fold rule assumes the helper's contract).",
    note="Assumed: AsyncMapReduce fold contract (C20 n/a); Planner/Executor implementations refine their interface contracts as far as verified (refinement obligations are part of the check); modifies clauses marked assumed in the evidence.",
    ref="DESIGN.md §5 C08", technique="contract-based deductive verification (fold invariant over a set of completed items, frame conditions, z3+cvc5)"),
+ 'C09': dict(
+   text="Deductive proof of no-panic obligations (bounds, nil, nil-map store, type assertion, uncomparable interface comparison, explicit panic) for every instruction of the downstream-response path: fetch/queryBatch/Query, executeRequests and its bookkeeping, response parsing, FindInsertionPoints/FindSelection/extractID, the depth manager and merge (ExtractValueModifyingSource, mergeMaps, mergeSlices, getLeftEntityPosition, mergeOrRewriteMap), FormatError/ExtendErrorList, for arbitrary JSON payloads; plus the signalling chain as postconditions: wrong-length reply, transport error, undecodable body or `errors` => queryBatch error => executeRequests => depth executor => manager returns a non-empty error list and no data => the per-operation result never has data:null without errors. `data:null` without errors for a root step and 'no fabricated value' are not decided; hangs are not decided.",
+   note="Assumed: payload values are JSON values (no typed-nil maps inside interfaces, ids are JSON kinds); insertion points emitted by FindInsertionPoints carry non-negative indexes (ghost PointIndexOK, not proved); AsyncMapReduce fold contract; depth map contiguity after NewDepthExecutorManager; modifies clauses marked assumed; library models listed in the evidence.",
+   ref="DESIGN.md §5 C09", technique="contract-based deductive verification (safety obligations for all instructions + error-signalling postcondition chain, z3+cvc5)"),
+ 'C12': dict(
+   text="Deductive proof that executeRequests performs at most one Queryer.Query call (ghost call counter) and none for an empty group, that its de-duplication bookkeeping is a well-formed index map (non-aliased entries, injective target slots within the batch, every request index recorded in exactly the bookkeeping or the skip set) and that every request of the group receives a non-nil response bound to itself (fan-out postcondition) for every number of requests; DepthExecutor.Execute's per-service closure inherits the one-call bound. The bound 'calls per service <= plan levels' across manager iterations relies on the manager loop calling de.Execute once per depth (structural) and on the fold contract.",
+   note="Assumed: AsyncMapReduce fold contract; lo.PartitionBy groups requests by URL; Queryer implementations refine the interface contract (MultiOpQueryer is checked); Sprintf/Itoa key formats are not modelled (de-dup key semantics are not part of the proof).",
+   ref="DESIGN.md §5 C12", technique="contract-based deductive verification (ghost call counter, quantified map invariants with goal-directed instantiation, z3+cvc5)"),
  'C10': dict(
    text="Deductive proof that (a) on every path of the per-operation closure where the query does not validate, names an unknown operation or is ambiguous, the ghost downstream-call counter is unchanged and the result has data:null and >=1 error; (b) FormatError and ExtendErrorList preserve *Error values by pointer identity (hence message, extensions, path) for single errors and error lists, for all inputs. The passage of a service's error list from queryBatch up to the closure is covered only by these kernels (not a full chain).",
    note="Assumed: LoadQuery / OperationList.ForName library contracts (ghost ValidQuery, LoadedDoc, OpNamed); QueryCalls ghost counts Queryer.Query invocations (Subscribe and the queryer factory are outside); no typed-nil *gqlerror.Error values.",
